@@ -57,15 +57,21 @@ def make_case(rng, sc, cplx):
     shape = tuple(cells)
     dt = complex if cplx else float
     prop = [np.array(K.rand_arr(rng, shape, False, pos=True), float) for _ in range(4)]
-    model = emg3d.Model(grid, property_x=prop[0], property_y=prop[1], property_z=prop[2],
-                        mu_r=prop[3], mapping='Conductivity')
+    # all four anisotropy cases (the coarse model aliases eta_y/eta_z differently in each)
+    aniso = rng.randrange(4)
+    kw = dict(property_x=prop[0], mu_r=prop[3], mapping='Conductivity')
+    if aniso in (1, 3):
+        kw['property_y'] = prop[1]
+    if aniso in (2, 3):
+        kw['property_z'] = prop[2]
+    model = emg3d.Model(grid, **kw)
     sfield = emg3d.Field(grid, frequency=(1.0 if cplx else -1.0))
     vmodel = emg3d.models.VolumeModel(model, sfield)
     res = emg3d.Field(grid, frequency=(1.0 if cplx else -1.0))
     rf = K.rand_field(rng, shape, cplx, pec=False)
     res.fx[...], res.fy[...], res.fz[...] = rf
     return dict(sc=sc, cplx=cplx, grid=grid, shape=shape, hs=hs, vmodel=vmodel, sfield=sfield,
-                res=res, rf=rf, dt=dt)
+                res=res, rf=rf, dt=dt, aniso=aniso)
 
 
 def coq_dir(nm, d, c, cg, cplx):
@@ -205,6 +211,7 @@ def correspondence(ctx):
     for i, c in enumerate(cases):
         rc, out = res[f"c04_k_{i}"]
         brief = {'sc': c['sc'], 'shape': list(c['shape']), 'complex': c['cplx'],
+                 'aniso': ['isotropic', 'HTI', 'VTI', 'triaxial'][c['aniso']],
                  'hx': [float(x) for x in c['hs'][0]], 'hy': [float(x) for x in c['hs'][1]],
                  'hz': [float(x) for x in c['hs'][2]]}
         if rc != 0:
@@ -223,7 +230,7 @@ def correspondence(ctx):
             if bad:
                 dis.append({'what': f'{names[k]}: implementation differs from model', 'case': brief,
                             'flat_index': bad[0], 'impl': str(ivf[bad[0]]), 'model': str(mv[bad[0]])})
-        seen.add((c['sc'], c['shape'], c['cplx']))
+        seen.add((c['sc'], c['shape'], c['cplx'], c['aniso']))
     return {
         'evaluations': len(cases) * 10,
         'distinct_nontrivial': len(seen),
@@ -253,12 +260,18 @@ def search_case(rng, sc, cplx, seed=None):
     hs = [npr.uniform(0.5, 3.0, n) for n in cells]
     grid = emg3d.TensorMesh(hs, (0, 0, 0))
     shape = tuple(cells)
-    model = emg3d.Model(grid, property_x=npr.uniform(0.1, 5, shape), property_y=npr.uniform(0.1, 5, shape),
-                        property_z=npr.uniform(0.1, 5, shape), mu_r=npr.uniform(0.5, 2, shape))
+    aniso = int(npr.randint(0, 4))
+    kw = dict(property_x=npr.uniform(0.1, 5, shape), mu_r=npr.uniform(0.5, 2, shape))
+    if aniso in (1, 3):
+        kw['property_y'] = npr.uniform(0.1, 5, shape)
+    if aniso in (2, 3):
+        kw['property_z'] = npr.uniform(0.1, 5, shape)
+    model = emg3d.Model(grid, **kw)
     freq = 1.0 if cplx else -1.0
     sfield = emg3d.Field(grid, frequency=freq)
     vmodel = emg3d.models.VolumeModel(model, sfield)
-    base = dict(sc=sc, complex=cplx, shape=list(shape), np_seed=seed)
+    base = dict(sc=sc, complex=cplx, shape=list(shape), np_seed=seed,
+                aniso=['isotropic', 'HTI', 'VTI', 'triaxial'][aniso])
 
     def interior(g):
         f = emg3d.Field(g, frequency=freq)
@@ -310,9 +323,15 @@ def search_case(rng, sc, cplx, seed=None):
     # interpolates to 1 on fine edges whose transverse neighbours are interior
     # volume conservation of the restricted model
     for nm in ('eta_x', 'eta_y', 'eta_z', 'zeta'):
-        a, b = np.sum(getattr(vmodel, nm)), np.sum(getattr(cm, nm))
-        if abs(a - b) > 1e-12 * abs(a):
-            return dict(signature='restricted model does not conserve ' + nm, **base)
+        fine = np.asarray(getattr(vmodel, nm))
+        want = fine
+        for d in range(3):      # sum of the children along every coarsened direction
+            if co[d]:
+                want = np.add(np.take(want, range(0, want.shape[d], 2), axis=d),
+                              np.take(want, range(1, want.shape[d], 2), axis=d))
+        got = np.asarray(getattr(cm, nm))
+        if got.shape != want.shape or np.max(np.abs(got - want)) > 1e-12 * np.max(np.abs(want)):
+            return dict(signature='coarse parameter is not the sum of its fine-cell children: ' + nm, **base)
     # coarse grid = every second node
     for d in range(3):
         nodes = [grid.nodes_x, grid.nodes_y, grid.nodes_z][d]
